@@ -67,6 +67,34 @@ pub fn run(args: &Args, r: &mut Report) {
         }
         let cfg = HistCfg { start_mode, cup, n_apps, paths: vec![path], cohorts: false, deliveries: false, random_params: true, throttles: false };
         let mut case = gen_history(&mut rng, &cfg);
+        // products released in lock-step: same installed version, same offered version, same installer result
+        // (their per-app events are then equal as values, yet each one is an event of its own)
+        if n_apps > 1 && rng.chance(1, 5) {
+            let v = case.setup.apps[0].version;
+            for a in case.setup.apps.iter_mut() {
+                a.version = v;
+            }
+            for cs in case.script.checks.iter_mut() {
+                if let Some(RespSpec::Reply(rep)) = cs.attempts.last_mut() {
+                    if let BodySpec::Doc(doc) = &mut rep.body {
+                        for a in doc.apps.iter_mut() {
+                            if let Some(u) = a.updatecheck.as_mut() {
+                                if u.status == "ok" {
+                                    *u = UcSpec::ok(Some("9.9.9.0"));
+                                }
+                            }
+                        }
+                    }
+                }
+                let first = cs.results.first().copied();
+                if let Some(f) = first {
+                    for x in cs.results.iter_mut() {
+                        *x = f;
+                    }
+                }
+            }
+            case.shape.push("lock-step".into());
+        }
         case.script.checks[0].reports = dvec.iter().map(|s| delivery(s, &mut rng)).collect();
         case.shape.push(dvec.join(","));
         case.nontrivial = true;
